@@ -129,6 +129,12 @@ func (u *Universe) msgCase(out *bufio.Writer, ti *TypeInfo, v *Val, o buildOpts)
 			detail = append(detail, "oracle-parse-val="+ov.String())
 		}
 	}
+	// C08: presence skeleton as seen by the reference implementation
+	if ost == "ok" && skeleton(ov) == skeleton(wantQ) {
+		flags = append(flags, "c08o=ok")
+	} else {
+		flags = append(flags, "c08o=bad")
+	}
 	// C03: round trip
 	fresh := ti.New()
 	st := safeUnmarshal(data, fresh)
@@ -142,6 +148,11 @@ func (u *Universe) msgCase(out *bufio.Writer, ti *TypeInfo, v *Val, o buildOpts)
 		} else if rerr == nil {
 			detail = append(detail, "roundtrip-val="+rv.String())
 		}
+	}
+	if st == "ok" && rerr == nil && skeleton(rv) == skeleton(want) {
+		flags = append(flags, "c08r=ok")
+	} else {
+		flags = append(flags, "c08r=bad")
 	}
 	// C06: bytes equal the deterministic serialisation of the message they denote
 	if want.String() != wantQ.String() {
@@ -245,4 +256,48 @@ func init() {
 		}
 		return nil
 	})
+}
+
+// skeleton projects a value to what C08 talks about: nil-ness of pointers, selected
+// oneof members, list lengths, map sizes; scalar contents erased.
+func skeleton(v *Val) string {
+	var b strings.Builder
+	var rec func(v *Val)
+	rec = func(v *Val) {
+		switch v.T {
+		case 'i', 'b', 't', 'd':
+			b.WriteByte('_')
+		case 'o':
+			if !v.Some {
+				b.WriteString("(o)")
+			} else {
+				b.WriteString("(o ")
+				rec(v.L[0])
+				b.WriteByte(')')
+			}
+		case 'l':
+			b.WriteString("(l")
+			for _, e := range v.L {
+				b.WriteByte(' ')
+				rec(e)
+			}
+			b.WriteByte(')')
+		case 'p':
+			fmt.Fprintf(&b, "(p%d)", len(v.L)/2)
+		case 'm', 'e':
+			if v.T == 'm' && !v.Some {
+				b.WriteString("(m)")
+				return
+			}
+			b.WriteByte('(')
+			b.WriteByte(v.T)
+			for _, e := range v.L {
+				b.WriteByte(' ')
+				rec(e)
+			}
+			b.WriteByte(')')
+		}
+	}
+	rec(v)
+	return b.String()
 }
